@@ -24,11 +24,15 @@ func init() { Register(c14{}) }
 func (c14) ID() string    { return "C14" }
 func (c14) Level() string { return "exploration" }
 func (c14) Rule() string {
-	return "byte strings up to 64 KiB: uniformly random (log-uniform lengths), every prefix of valid messages of every zoo shape, and structure-aware mutations driven by the reference decoder's annotation of a valid message (tag swaps, class/type/ref index edits to {-1, size, size+1, 2^31-1}, length/count edits to {0, +-1, 255, 256, 65535, 2^31-1, -1}, type-name edits, delete/duplicate/transpose of whole sub-values, byte flips/insertions/removals), against type maps {complete, empty, one class missing, adversarial}; entry points ToObject, Decoder.Decode, Decoder.ReadFrom, repeated Decoder.ReadObject to end of input, Serializer.ToObject / ReadFrom / Read. Each case runs in a child process under RLIMIT_AS with a journal. Oracle: the call returns (no panic, no process death), bytes allocated <= 1 MiB + 8192*len, reader calls <= 4096 + 64*len (metered reader aborts at the budget), CPU <= 20 s. Non-trivial = input is not a valid message; distinct by input hash."
+	return "byte strings up to 64 KiB: uniformly random (log-uniform lengths), every prefix of valid messages of every zoo shape, and structure-aware mutations driven by the reference decoder's annotation of a valid message (tag swaps, class/type/ref index edits to {-1, size, size+1, 2^31-1}, length/count edits to {0, +-1, 255, 256, 65535, 2^31-1, -1}, type-name edits, delete/duplicate/transpose of whole sub-values, byte flips/insertions/removals), against type maps {complete, empty, one class missing, adversarial}; entry points ToObject, Decoder.Decode, Decoder.ReadFrom, repeated Decoder.ReadObject to end of input, Serializer.ToObject / ReadFrom / Read. Each case runs in a child process under RLIMIT_AS with a journal. Oracle: the call returns (no panic, no process death), bytes allocated <= 1 MiB + 8192*len, reader calls <= 4096 + 64*len (metered reader aborts at the budget), CPU <= 6 s per call (the slowest call on the current tree takes 0.65 s). Non-trivial = input is not a valid message; distinct by input hash."
 }
 
 // every call is journalled and bounded by 20 CPU-seconds: a worker that has used 30 CPU-seconds
 // since its last journal line is inside a call that exceeded the bound and did not return
+// c14cpuBound: CPU-seconds one decode call may take on an input of at most 64 KiB. The slowest call on the
+// current tree takes 0.65 s (64 KiB of nested list tags); the bound leaves a factor of nine.
+const c14cpuBound = 6.0
+
 func (c14) ProcOpts() Proc { return Proc{RlimitAS: 4 << 30, StallSec: 45, StallCPU: 30} }
 func (c14) FatalFeatures(c Case) []string {
 	return []string{"kind=" + c.Kind}
@@ -251,6 +255,47 @@ func craftedInputs() [][]byte {
 		}
 		out = append(out, b)
 	}
+	// a container that contains itself (or a doubling DAG) where the destination is a STRING: a map key or
+	// value of map[string]string, an element of []string (indexes 159 and up)
+	selfList := []byte{0x79, 0x51} // untyped list of one element: a reference (to itself, number appended)
+	for _, msg := range []string{
+		"C x08 MpStrStr x91 x01 m x60 H %s x92 x01 v Z",      // key of map[string]string: list #2 = [ref #2]
+		"C x08 MpStrStr x91 x01 m x60 H x01 k %s x92 Z",      // value
+		"C x05 SlStr x91 x01 v x60 x57 x01 a %s x92 x01 b Z", // element of []string
+		"C x08 MpStrI32 x91 x01 m x60 H %s x92 x91 Z",
+	} {
+		parts := strings.SplitN(msg, "%s", 2)
+		b := hspecHx(parts[0])
+		b = append(b, selfList...)
+		b = append(b, hspecHx(strings.TrimSpace(parts[1]))...)
+		out = append(out, b)
+	}
+	{
+		// key = top of a doubling DAG of 26 levels (2^26 paths)
+		b := hspecHx("C x08 MpStrStr x91 x01 m x60 x57 x79 x91") // object #0, outer list #1, [1] #2
+		for k := 2; k <= 27; k++ {
+			b = append(b, 0x7a, 0x51)
+			b = append(b, cint(k)...)
+			b = append(b, 0x51)
+			b = append(b, cint(k)...)
+		}
+		b = append(b, 'Z')
+		out = append(out, b)
+		m := hspecHx("C x08 MpStrStr x91 x01 m x60 H x79 x91") // map #1, key #2 = [1] ... then keys that double
+		for k := 2; k <= 27; k++ {
+			m = append(m, 0x01, 'v', 0x7a, 0x51)
+			m = append(m, cint(k)...)
+			m = append(m, 0x51)
+			m = append(m, cint(k)...)
+		}
+		m = append(m, 0x01, 'v', 'Z')
+		out = append(out, m)
+	}
+	// a stream of 65536 top-level values, each an empty list (a container on the stream): whatever a
+	// streaming decoder does per value must not grow with the number of values read before
+	out = append(out, bytes.Repeat([]byte{0x78}, 65536))
+	out = append(out, bytes.Repeat([]byte{'H', 'Z'}, 32768))
+	out = append(out, bytes.Repeat([]byte{0x79, 0x90}, 32768))
 	return out
 }
 
@@ -391,10 +436,10 @@ func c14run(env *Env, res *Result, c Case, sub int, input []byte, tmName string,
 		if alloc > allocBudget {
 			viol("budget:alloc", fmt.Sprintf("%d bytes allocated, budget %d", alloc, allocBudget))
 		}
-		if cpu > 20 {
+		if cpu > c14cpuBound {
 			viol("budget:cpu", fmt.Sprintf("%.1f CPU-seconds", cpu))
 		}
-		if pi != nil || bud != nil || cpu > 20 {
+		if pi != nil || bud != nil || cpu > c14cpuBound {
 			break // the same site would be reported by every entry point
 		}
 	}
